@@ -89,6 +89,26 @@ fn term_variants(t: &Term) -> Vec<Term> {
                 out.push(Term::Block(e2));
             }
         }
+        Term::Interp(segs) => {
+            // drop a text segment; shrink inside a hole
+            for i in 0..segs.len() {
+                match &segs[i] {
+                    Seg::Text(t) if !t.is_empty() => {
+                        let mut s2 = segs.clone();
+                        s2[i] = Seg::Text(String::new());
+                        out.push(Term::Interp(s2));
+                    }
+                    Seg::Hole(e) => {
+                        for e2 in expr_variants(e) {
+                            let mut s2 = segs.clone();
+                            s2[i] = Seg::Hole(e2);
+                            out.push(Term::Interp(s2));
+                        }
+                    }
+                    _ => {}
+                }
+            }
+        }
         Term::Fn { param, body: Some(b) } => {
             for b2 in expr_variants(b) {
                 out.push(Term::Fn { param: param.clone(), body: Some(b2) });
